@@ -277,6 +277,56 @@ def base_shapes():
     return S
 
 
+def grammar_shapes(with_surrogates=True):
+    """Exhaustive product of a small model grammar (thorough tiers).
+
+    two variables + optionally an untouched one; reaction 1 (x -> y) and reaction 2 (y ->) with a rate law each;
+    the coefficient of y in reaction 1 of every kind; a derived chain of depth 0-3 feeding reaction 2;
+    optionally a two-output surrogate; declaration order natural or reversed.
+    """
+    laws1 = {
+        "ma": (R.mass_action_1s, ["x", "k1"]),
+        "mm": (R.michaelis_menten_1s, ["x", "k1", "k2"]),
+        "thr": (R.thresh, ["x", "k1"]),
+        "time": (R.ramp_s, ["x", "k1", "time"]),
+    }
+    coefs = {
+        "int": 1,
+        "frac": 0.5,
+        "named": "k2",
+        "state": ("d", R.mul, ["k2", "x"]),
+        "param": ("d", R.twice, ["k1"]),
+    }
+    out = []
+    for (l1, (fn1, args1)), (ck, coef), depth, untouched, sur, rev in it.product(
+        laws1.items(), coefs.items(), range(4), (False, True), (False, True) if with_surrogates else (False,), (False, True)
+    ):
+        derived = []
+        last = "y"
+        for d in range(depth):
+            name = f"d{d + 1}"
+            derived.append((name, R.add if d % 2 == 0 else R.mul, [last, "k2" if d % 2 == 0 else "k1"]))
+            last = name
+        rxns = [
+            ("v1", fn1, list(args1), {"x": -1, "y": coef}),
+            ("v2", R.mass_action_1s, [last, "k2"], {"y": -1}),
+        ]
+        vars_ = [("x", None)] + ([("idle", None)] if untouched else []) + [("y", None)]
+        spec = dict(
+            name=f"g/{l1}/{ck}/d{depth}{'/u' if untouched else ''}{'/s' if sur else ''}{'/rev' if rev else ''}",
+            params=[("k1", None), ("k2", None)],
+            vars=vars_,
+            derived=derived[::-1] if rev else derived,
+            reactions=rxns[::-1] if rev else rxns,
+        )
+        if sur:
+            spec["surrogates"] = [("sur", "mock", R.two_outputs, ["x", "k1"], ["sf", "so"], {"sf": {"x": -1, "y": 1.5}})]
+            spec["derived"] = list(spec["derived"]) + [("dso", R.add, ["so", "k2"])]
+            spec["reactions"] = list(spec["reactions"]) + [("v3", R.mass_action_1s, ["dso", "k1"], {"x": 1})]
+        out.append(spec)
+    return out
+
+
 def shapes(tier="quick"):
     base = base_shapes()
     out = []
